@@ -70,6 +70,7 @@ func init() {
 		Runs: []hrun{
 			{Pkg: wtxmgrPkg, Fn: "ZzC12MinedL2", Tiers: "qt", Reach: []string{"c12-end", "leased", "lock-conflict", "lock-extended", "unlock-conflict", "unlocked", "swept", "confirmed-spend", "lock-unknown"}, Bound: "A confirmed with two credits, B spends A:0; 2 events from {see/mine/rollback/abandon, lock(op,id,duration in {0,1ns,1s,10min}), unlock(op,id), clock advance, sweep, restart}; clock seconds and nanoseconds symbolic"},
 			{Pkg: wtxmgrPkg, Fn: "ZzC12LeasedP1L2", Tiers: "qt", Reach: []string{"c12-end", "leased", "confirmed-spend", "lock-conflict", "unlocked"}, Bound: "A confirmed, A:0 leased to id1 for ten minutes (fixed preamble), then 2 free events (e.g. an unconfirmed spend of the leased output and its removal, a confirmed spend, a second identifier)"},
+			{Pkg: wtxmgrPkg, Fn: "ZzC12UnminedL2", Tiers: "qt", Reach: []string{"c12-end", "leased"}, Bound: "A UNCONFIRMED with two credits, 2 events (a lease on an unconfirmed credit)"},
 			{Pkg: wtxmgrPkg, Fn: "ZzC12Tick", Tiers: "qt", Reach: []string{"c12-end"}, Bound: "one leased confirmed output (lease of 1 s or 10 min); Balance computed while the clock moves from t1 to t2 >= t1 (both symbolic, possibly across the expiry) after 0..3 clock readings; the answer must be the answer for t1 or for t2"},
 			{Pkg: walletPkg, Fn: "ZzC12WalletSmall", Tiers: "qt", Reach: []string{"c12w-end", "observed-while-leased", "observed-after-expiry", "other-id-refused", "released"}, Bound: "wallet level (Wallet.LeaseOutput / ReleaseOutput / CalculateBalance-equivalent / ListUnspent) on one funded wallet with the store's REAL clock: time.Now returns arbitrary non-decreasing instants (symbolic), lease of ten minutes, then another identifier tries to take it or the owner releases it; observations are asserted when the instants read before/after them put them certainly before or certainly after the expiry"},
 			{Pkg: walletPkg, Fn: "ZzC12Wallet", Tiers: "t", Reach: []string{"c12w-end", "observed-while-leased", "observed-after-expiry"}, Bound: "the same with 1 s and 10 min leases and four continuations (foreign lease, foreign release, release, extension + ListLeasedOutputs)"},
@@ -84,6 +85,7 @@ func init() {
 		Runs: []hrun{
 			{Pkg: wtxmgrPkg, Fn: "ZzC10U1P1", Tiers: "qt", Reach: []string{"fault-hit", "c10-end", "fault-not-reached"}, Bound: "U1; every store operation from every state after 1 event; the k-th write/delete/bucket creation of the operation fails, k symbolic"},
 			{Pkg: wtxmgrPkg, Fn: "ZzC10U4P2", Tiers: "qt", Reach: []string{"fault-hit", "c10-end"}, Bound: "U4 (coinbase), pre-states after 2 events"},
+			{Pkg: wtxmgrPkg, Fn: "ZzC10U9P3", Tiers: "qt", Reach: []string{"fault-hit", "c10-end"}, Bound: "U9 after 'A confirmed, B seen, conflicting B' seen' (two unconfirmed spenders of one outpoint): every store operation with the k-th write failing"},
 			{Pkg: wtxmgrPkg, Fn: "ZzC10U3P2", Tiers: "t", Reach: []string{"fault-hit", "c10-end"}, Bound: "U3 (conflicts), pre-states after 2 events"},
 			{Pkg: wtxmgrPkg, Fn: "ZzC10U1P2", Tiers: "t", Reach: []string{"fault-hit", "c10-end"}, Bound: "U1, pre-states after 2 events"},
 			{Pkg: wtxmgrPkg, Fn: "ZzC10U3P3", Tiers: "t", Reach: []string{"fault-hit", "c10-end"}, Bound: "U3, pre-states after 3 events"},
@@ -140,6 +142,7 @@ func init() {
 			{Pkg: snaclPkg, Fn: "ZzC17Params", Tiers: "qt", Reach: []string{"c17-end"}, Bound: "Parameters fully symbolic (salt, digest, N, R, P as 64-bit values); other lengths within 24 below / 8 above and 0..2"},
 			{Pkg: snaclPkg, Fn: "ZzC17Password1", Tiers: "qt", Reach: []string{"c17-end", "near-miss-rejected", "restart-accepts", "digest-near-miss", "salt-changed", "longer"}, Bound: "1-byte symbolic passphrase"},
 			{Pkg: snaclPkg, Fn: "ZzC17Password2", Tiers: "qt", Reach: []string{"c17-end", "near-miss-rejected", "restart-accepts"}, Bound: "2-byte symbolic passphrase"},
+			{Pkg: snaclPkg, Fn: "ZzC17Password70", Tiers: "qt", Reach: []string{"c17-end", "differs-beyond-64-bytes"}, Bound: "a 70-byte passphrase (last byte symbolic) against a guess that differs in one byte (symbolic non-zero mask) at position 0, 31, 32, 63, 64, 65 or 69"},
 			{Pkg: snaclPkg, Fn: "ZzC17Password3", Tiers: "t", Reach: []string{"c17-end"}, Bound: "3-byte symbolic passphrase"},
 		},
 		Assume: []string{
@@ -180,6 +183,9 @@ func init() {
 			{Pkg: walletPkg, Fn: "ZzC16HorizonW3", Tiers: "qt", NoNative: true, Reach: []string{"c16-end", "invalid-child", "jump"}, Bound: "window 3, 2 rounds"},
 			{Pkg: walletPkg, Fn: "ZzC16HorizonResume", Tiers: "qt", NoNative: true, Reach: []string{"c16-end"}, Bound: "window 2, resumed recovery starting at index 7"},
 			{Pkg: walletPkg, Fn: "ZzC16RecoveryW2B2", Tiers: "qt", Reach: []string{"c16-end", "resumed", "spend-with-change", "two-receipts-in-a-block", "receipt-spent-in-the-same-block", "spend-without-change", "two-wallet-outputs-in-one-transaction", "payment-at-or-below-the-highest-index"}, Bound: "the real recovery loop (Wallet.recovery, RecoveryManager incl. Resurrect, real address manager, transaction store and chain.BlockFilterer) on a wallet restored from the seed, window 2: every chain of 2 blocks whose content is chosen from {external receipt, internal receipt, two external receipts, spend of an earlier output with or without internal change, a receipt swept out of the wallet later in the same block, one transaction paying an external and an internal address, a payment to an index at or below the highest paid so far (reuse / gap)}, every index inside the window, optionally a first recovery session after block 1 (the final run resumes)"},
+			{Pkg: walletPkg, Fn: "ZzC16RecoveryNestedW2B2", Tiers: "qt", Reach: []string{"c16-end", "resumed", "two-wallet-outputs-in-one-transaction"}, Bound: "the same chains with payments to the BIP0049Plus scope (nested witness external addresses, native witness change: the default scope whose branches use different address formats), window 2, 2 blocks"},
+			{Pkg: walletPkg, Fn: "ZzC16RecoveryFailW2B2", Tiers: "qt", Reach: []string{"c16-end", "retried-after-backend-failure"}, Bound: "window 2, 2 blocks; the backend fails the first filter request of every recovery once, the recovery reports the error and is retried in the same process"},
+			{Pkg: walletPkg, Fn: "ZzC16BatchBoundary", Tiers: "qt", MaxSteps: 400_000_000, Reach: []string{"c16-end", "payment-in-the-last-block-of-a-batch"}, Bound: "a chain of 2005 blocks after the birthday (concrete ten-minute timestamps), empty except for one payment 1999, 2000 or 2001 blocks after the birthday (around the end of the first 2000-block batch) and a changeless sweep of it in the second batch"},
 			{Pkg: walletPkg, Fn: "ZzC16RecoveryW2B3", Tiers: "t", Reach: []string{"c16-end", "resumed", "spend-with-change"}, Bound: "window 2, chains of 3 blocks, a session may end after each of the first two"},
 			{Pkg: walletPkg, Fn: "ZzC16RecoveryW3B3", Tiers: "t", Reach: []string{"c16-end", "resumed"}, Bound: "window 3, chains of 3 blocks"},
 			{Pkg: walletPkg, Fn: "ZzC16HorizonW3R3", Tiers: "t", NoNative: true, Reach: []string{"c16-end"}, Bound: "window 3, 3 rounds"},
@@ -188,12 +194,12 @@ func init() {
 		Assume: []string{
 			"three pieces: locateBirthdayBlock; BranchRecoveryState + expandScopeHorizons + extendFoundAddresses with symbolic invalid children (derivation stubbed); and the full recovery loop with real derivation, real block filterer, balances and resumption on the concrete seed (ZzC16Recovery*)",
 			"the chain model's FilterBlocks runs the real chain.BlockFilterer over each requested block (what chain.RPCClient.FilterBlocks does after its compact-filter pre-check, which is skipped)",
-			"payments go to BIP0084 addresses of account 0; the other default scopes are expanded and filtered but never paid",
+			"payments go to BIP0084 (or, in the Nested entry, BIP0049Plus) addresses of account 0; the other default scopes are expanded and filtered but never paid",
 			"ScopedKeyManager.DeriveFromKeyPath/Extend*Addresses/MarkUsed are replaced by harness stubs (verifrt.StubFunc) whose derivation declares child indexes invalid by symbolic booleans; counterexamples of these harnesses are confirmed by deterministic re-execution in the executor, not natively",
 			"time.Time.Sub is replaced by its contract (saturating difference) because its body divides by 10^9",
 			"the stored birthday precedes the first possible payment by two days (wallet creation subtracts 48h), so a start block with timestamp <= birthday+2h is not later than the first block that could pay",
 		},
-		Outside: "chains longer than 64 blocks (bounded binary search, not the inductive loop-cut of the design), windows above 4 (3 in the full loop), more than 2 invalid children, index wrap at 2^32, chains longer than 3 blocks in the full loop, batches of more than one FilterBlocks round trip per 2000 blocks, forced shutdown in the middle of a batch, backend errors during a batch",
+		Outside: "chains longer than 64 blocks (bounded binary search, not the inductive loop-cut of the design), windows above 4 (3 in the full loop), more than 2 invalid children, index wrap at 2^32, chains longer than 3 non-empty blocks in the full loop, forced shutdown in the middle of a batch, backend failures other than one failed filter request per recovery",
 	})
 	mgrAssume := []string{
 		"one concrete 32-byte seed, concrete passphrases: BIP32 derivation, secp256k1, scrypt, secretbox, SHA-2, RIPEMD-160, base58 run natively (real libraries) on concrete inputs; the claim is for this seed, not for every seed",
